@@ -53,3 +53,8 @@ add("C10","exploration",
  "Held on the hostile inputs counted in the evidence (command x argument count x fault-class cells); no behavioural expectation beyond survival and an error/close for the offender.",
  "Trusted: the harness SSH client; crash attribution names the culprit and its five predecessors.",
  "DESIGN.md §2 C10")
+add("C13","exploration",
+ "runtime monitoring: seeded session histories (open/drain/cancel-while-running/cancel-while-waiting/bursts) driven by a harness SSH client against in-process servers; hook-free observation of the files the server process holds open (/proc/<pid>/fd sampled every 5 ms and at quiescent points) plus an online monitor over the limiter hook trace (acquisitions - releases within [0, limit], every release preceded by its acquisition)",
+ "Held on the histories counted in the evidence (cat limit 1-3, tail limit 1-2, two users); cancellations while waiting actually achieved are counted.",
+ "Trusted: /proc fd view; a blocked cat reader keeps its file open; hook call sites srv.lim.* (the /proc observation decides, the trace cross-checks).",
+ "DESIGN.md §2 C13")
